@@ -85,6 +85,13 @@ BUILTINS = {
     "ValueError", "TypeError", "RuntimeError", "NotImplementedError", "KeyError",
     "AttributeError", "Exception", "ImportError", "delattr", "vars", "filter", "slice",
 }
+# methods of stateful random generators (numpy Generator, torch global RNG):
+# two calls with equal arguments are different values
+IMPURE_METHODS = {
+    "choice", "uniform", "normal", "random", "standard_normal", "integers", "permutation",
+    "shuffle", "rsample", "rsample_and_log_prob", "randn", "rand", "randperm", "multivariate_normal",
+    "exponential", "gamma", "beta", "poisson", "binomial", "bytes",
+}
 MAX_INLINE_STMTS = 60
 # dtype / device plumbing: irrelevant to values, never inlined
 NEVER_INLINE = {
@@ -105,6 +112,8 @@ class Event:
     result: tuple
     receiver: tuple | None = None
     depth: int = 0
+    seq: int = 0
+    snap: dict | None = None  # attributes of object arguments at call time
 
 
 @dataclass
@@ -139,6 +148,7 @@ class Evaluator:
         self.events: list = []
         self.stores: list = []  # (obj, attr, value, node, func)
         self._ids = itertools.count(1)
+        self._seq = itertools.count(1)
         self.notes: list = []
         self.inlined: set = set()
 
@@ -213,7 +223,18 @@ class Evaluator:
 
     def store_attr(self, obj, attr, value, node=None, func=None):
         self.heap[(obj, attr)] = value
-        self.stores.append((obj, attr, value, node, func))
+        self.stores.append((obj, attr, value, node, func, next(self._seq)))
+
+    def snapshot(self, terms) -> dict:
+        """Tracked attributes of the object-like terms among *terms*."""
+        out = {}
+        if not self.heap:
+            return out
+        objs = {o for (o, _a) in self.heap}
+        for t in terms:
+            if isinstance(t, tuple) and t and t in objs:
+                out[t] = {a: v for (o, a), v in self.heap.items() if o == t}
+        return out
 
 
 class Frame:
@@ -275,6 +296,9 @@ class Frame:
             self.exec_try(s, st)
         elif isinstance(s, (ast.Import, ast.ImportFrom, ast.Pass, ast.Global, ast.Nonlocal)):
             pass
+        elif isinstance(s, (ast.Break, ast.Continue)):
+            # only reached while folding a loop body on its scratch state
+            st.live = False
         elif isinstance(s, (ast.FunctionDef, ast.AsyncFunctionDef)):
             st.env[s.name] = ("ref", f"{self.f.ident}.<locals>.{s.name}")
         elif isinstance(s, ast.Assert):
@@ -892,7 +916,7 @@ class Frame:
             for f in cls.fields():
                 if f.name in bound:
                     ev.heap[(obj, f.name)] = bound[f.name]
-                elif f.init and f.has_default and "**" not in kwargs:
+                elif f.init and f.has_default and "**" not in kwargs and not f.factory:
                     d = f.default
                     ev.heap[(obj, f.name)] = T.NONE if (isinstance(d, ast.Constant) and d.value is None) else ("f", "default", (T.K(f.name),), ())
             self._record(f"new:{cls.ident}", args, kwargs, e, obj, None)
@@ -1007,11 +1031,17 @@ class Frame:
 
     # ------------------------------------------------------------- events
     def _record(self, callee, args, kwargs, e, result, recv):
-        self.ev.events.append(
-            Event(callee, tuple(args), tuple(sorted(kwargs.items())), e, self.f, result, recv, self.depth)
+        ev = self.ev
+        ev.events.append(
+            Event(callee, tuple(args), tuple(sorted(kwargs.items())), e, self.f, result, recv, self.depth,
+                  next(ev._seq), ev.snapshot(list(args) + ([recv] if recv is not None else [])))
         )
 
     def _event(self, callee, args, kwargs, e, recv, pure=False):
+        if callee.startswith("method:") and callee[7:] in IMPURE_METHODS:
+            # a draw from a stateful generator: every call is a distinct value
+            kwargs = dict(kwargs)
+            kwargs["#draw"] = T.const(next(self.ev._ids))
         t = ("f", callee, tuple(args), tuple(sorted(kwargs.items())))
         self._record(callee, args, kwargs, e, t, recv)
         return t
